@@ -170,6 +170,8 @@ def _merge(acc, sh):
         acc["counters"][k] = acc["counters"].get(k, 0) + v
     for k, v in sh["known_hits"].items():
         acc["known_hits"][k] = acc["known_hits"].get(k, 0) + v
+    for k, v in sh.get("viol_classes", {}).items():
+        acc["viol_classes"][k] = acc["viol_classes"].get(k, 0) + v
     for n in sh["notes"]:
         if n not in acc["notes"]:
             acc["notes"].append(n)
@@ -180,7 +182,7 @@ def _merge(acc, sh):
 
 def _new_acc():
     return dict(evaluations=0, transitions=0, validated=0, ties=0, n_violations=0, wall_cpu=0.0,
-                outcomes=set(), nontrivial=set(), capped=False, counters={}, known_hits={}, notes=[],
+                outcomes=set(), nontrivial=set(), capped=False, counters={}, known_hits={}, viol_classes={}, notes=[],
                 violations=[], samples=[], explored=0)
 
 
@@ -329,6 +331,8 @@ def run_check(prop, tier="quick", seed=0, nproc=None, only=None, budget=None, wr
             total["counters"][k] = total["counters"].get(k, 0) + v
         for k, v in a["known_hits"].items():
             total["known_hits"][k] = total["known_hits"].get(k, 0) + v
+        for k, v in a["viol_classes"].items():
+            total["viol_classes"][k] = total["viol_classes"].get(k, 0) + v
         total["notes"].extend(n for n in a["notes"] if n not in total["notes"])
         total["violations"].extend(a["violations"])
         space_rows.append(dict(name=s.name, mode=s.mode, size=s.size, explored=a["explored"],
@@ -392,6 +396,7 @@ def run_check(prop, tier="quick", seed=0, nproc=None, only=None, budget=None, wr
         spaces=space_rows,
         counters=total["counters"],
         known_findings_hit=total["known_hits"],
+        violation_classes=total["viol_classes"],
         notes=total["notes"],
         samples=samples or [{"note": "no case executed"}],
         tree=tree,
@@ -415,6 +420,10 @@ def run_check(prop, tier="quick", seed=0, nproc=None, only=None, budget=None, wr
             status = status or 2
     for ln in lines:
         print(ln, flush=True)
+    if total["viol_classes"]:
+        print("violation classes (call-site signature or key prefix: count):", flush=True)
+        for k, v in sorted(total["viol_classes"].items(), key=lambda kv: -kv[1])[:60]:
+            print("   %6d  %s" % (v, k), flush=True)
     print("%s %s: %d cases, %d impl calls, %d validated, %d ties, %d distinct outcomes, "
           "%d violations, exhaustive=%s, %.1fs" % (prop, tier, total["evaluations"], total["transitions"],
                                                     total["validated"], total["ties"], len(total["outcomes"]),
